@@ -41,6 +41,11 @@ CHECKS = {
         text="Small-scope exhaustive exploration; the field type's own AsRef<Self>/AsMut<Self> deliberately return a decoy so 'the field itself' vs 'a forwarded call' is observable; addresses of returned references and iterated elements are compared with the field's own.",
         note="Trusted: rustc; address comparison within one process. Bounds: <=3 fields.",
         design_ref="DESIGN.md §3 C14", engine="compile"),
+    "C18": dict(
+        technique="exhaustive enumeration, against the real parser/expanders in-process under catch_unwind, of (b) all strings up to length 4 (5 thorough) over a 31-symbol alphabet with 1-4 byte characters into the literal parser and up to length 3 (4) as literals in 8 attribute positions, (c) all attribute token sequences up to length 2 (3) over a 38-token alphabet and up to length 3 (4) over a 20-token alphabet for every helper attribute x 8 item templates, (a) all 50 derives x 36 item shapes incl. unions/empty enums, (d) repetition/nesting growth series; an abort or hang is bisected by index",
+        text="Bounded exhaustive input-space exploration with an oracle on the outcome class: Ok, Err(diagnostic) or deliberate diagnostic panic are fine; unreachable!/unimplemented!/unwrap/indexing/overflow panics, panics inside syn/quote/proc-macro2, process aborts and calls over the watchdog are violations. The spaces are index-addressable so a crash is attributed to one input.",
+        note="Trusted: the panic-site classifier (reads the source line at the reported location); proc-macro2 fallback mode behaves like the compiler's token API for these inputs. Growth: exponent <= 2.7 over the last three doublings, no call > 60 s; small inputs: no call > 2 s.",
+        design_ref="DESIGN.md §3 C18", engine="inproc"),
 }
 
 PENDING = ["C01", "C02", "C03", "C04", "C05", "C06", "C07", "C08", "C09", "C10", "C11", "C13", "C14", "C15", "C16",
